@@ -1010,6 +1010,9 @@ class RequestBody(Entity):
             if key in request_params:
                 if not isinstance(request_params[key], list):
                     request_params[key] = [request_params[key]]
-                request_params[key].append(value)
+                if isinstance(value, list):
+                    request_params[key].extend(value)
+                else:
+                    request_params[key].append(value)
             else:
                 request_params[key] = value
